@@ -649,7 +649,7 @@ func famForward(g *sgen, i int) J {
 // C11: a valid scenario of any family with one or two hostile mutations — of the request body, of a document the
 // Transport returns, or of a value the Database returns
 func famHostile(g *sgen, i int) J {
-	bases := []string{"inbox", "outbox", "send", "forward", "authority", "graph", "create", "get", "inbox", "outbox"}
+	bases := []string{"inbox", "outbox", "send", "forward", "authority", "graph", "create", "get", "inbox", "outbox", "client", "client"}
 	sc := families[bases[i%len(bases)]](g, i/len(bases))
 	w := jmap(sc["world"])
 	rem := jmap(w["remote"])
@@ -684,6 +684,13 @@ func famHostile(g *sgen, i int) J {
 			ks := sortedKeys(store)
 			if len(ks) > 0 {
 				k := ks[g.r.intn(len(ks))]
+				// the collections the side effects read and write back are the interesting stored values
+				if g.r.bool() {
+					k = g.r.pick([]string{local("/col/1"), local("/col/2"), local("/ocol/1"), aliceFollowers, local("/notes/1"), local("/notes/2")})
+					if _, ok := store[k]; !ok {
+						k = ks[g.r.intn(len(ks))]
+					}
+				}
 				nd, d := g.mutate(store[k])
 				store[k] = nd
 				muts = append(muts, "store["+k+"]:"+d)
@@ -840,3 +847,54 @@ func famClient(g *sgen, i int) J {
 }
 
 func init() { families["client"] = famClient }
+
+// C11: the stored values the side effects read (target collections, liked/likes/shares, updated objects) carry a
+// hostile element
+func famHostileStore(g *sgen, i int) J {
+	var sc J
+	if i%2 == 0 {
+		sc = famClient(g, []int{2, 3, 4, 5, 0, 1}[i/2%6]) // Delete, Add, Remove, Like, Update
+	} else {
+		ty := []string{"Add", "Remove", "Like", "Announce", "Update", "Delete"}[i/2%6]
+		w := g.baseWorld()
+		w["fedCallbacks"] = J{"wrapped": []interface{}{}, "other": []interface{}{}, "onFollow": 0.0}
+		sc = J{"label": "hs-inbox-" + ty, "cfg": J{"kind": "both"}, "world": w,
+			"steps": []interface{}{step("postInbox", "POST", g.header(true), "/users/alice/inbox", g.inboxActivity(ty, w))}}
+	}
+	w := jmap(sc["world"])
+	store := jmap(w["store"])
+	var muts []interface{}
+	for _, k := range []string{local("/col/1"), local("/col/2"), local("/ocol/1"), local("/notes/1"), local("/notes/2")} {
+		doc := jmap(store[k])
+		if len(doc) == 0 || !g.r.chance(70) {
+			continue
+		}
+		for _, key := range []string{"items", "orderedItems", "likes", "shares"} {
+			if v, ok := doc[key]; ok && g.r.chance(70) {
+				rep := replacements[g.r.intn(len(replacements))]
+				xs := jlist(v)
+				if _, isMap := v.(map[string]interface{}); isMap {
+					// likes / shares given as an embedded collection: poison its items
+					inner := jmap(v)
+					for _, ik := range []string{"items", "orderedItems"} {
+						if iv, ok := inner[ik]; ok {
+							ys := jlist(iv)
+							ys = append(ys, rep.mk())
+							inner[ik] = ys
+						}
+					}
+				} else {
+					pos := g.r.intn(len(xs) + 1)
+					xs = append(xs[:pos], append([]interface{}{rep.mk()}, xs[pos:]...)...)
+					doc[key] = xs
+				}
+				muts = append(muts, "store["+k+"]/"+key+":"+rep.name)
+			}
+		}
+	}
+	sc["mutations"] = muts
+	sc["label"] = "hostile-store-" + fmt.Sprint(sc["label"])
+	return sc
+}
+
+func init() { families["hostilestore"] = famHostileStore }
